@@ -520,6 +520,19 @@ class Facts:
         self.consts = {c['path']: c for c in self.j['consts']}
         self._callers = None
 
+    def host(self, regex, call_rx):
+        """the function matching `regex`, or - when it was folded into a method / its caller and no longer exists under any name the
+        normalisation can restore - the one function whose body now contains its characteristic call `call_rx`"""
+        r = re.compile(regex)
+        out = [b for p, b in self.bodies.items() if r.search(p)]
+        if len(out) == 1:
+            return out[0]
+        cr = re.compile(call_rx)
+        hosts = [b for p, b in self.bodies.items() if b.kind != 'closure' and not cr.search(p) and any(c.is_(call_rx) for c in b.calls())]
+        if len(hosts) == 1:
+            return hosts[0]
+        raise Broken('no function matches %r and %d functions call %r in config %s' % (regex, len(hosts), call_rx, self.cfg))
+
     def listed(self, fn, table):
         """is `fn` covered by the who-may registry `table` (a set/dict of reviewed function paths)?  When a listed function
         was dissolved into its callers by hand (it no longer exists and has no successor), its reviewed callers inherit
